@@ -209,6 +209,11 @@ template <int N, typename T> static void op_div(const Case& c, Outcome& o) {
     STAT(32 + N, "mat / mat", worst / (ktol * smax));
     if (!(worst <= ktol * smax)) { o.bad(21, "A / M != A * inverse(M) within 8N u cond(M) sum|terms|"); return; }
     if (R.unimod && !exact) { o.bad(25, "A / M with integer A and integer unimodular M is not exact"); return; } }
+  // aliasing: M /= M must equal M / M (the divisor is read by reference: it must not be consumed while the result is being stored), which is I within the inverse bound
+  { Mat G = R.M / R.M, H = R.M; H /= H; LD amax = 0; for (int cc = 0; cc < N; ++cc) for (int r = 0; r < N; ++r) for (int k = 0; k < N; ++k) { LD a = labs_((LD)R.M[k][r] * R.inv[cc][k]); if (a > amax) amax = a; }
+    for (int cc = 0; cc < N; ++cc) for (int r = 0; r < N; ++r) {
+      if (!(G[cc][r] == H[cc][r])) { o.res(FT<T>::bits(H[cc][r]), (uint64_t)(cc * N + r)); o.exp(FT<T>::bits(G[cc][r]), (uint64_t)(cc * N + r)); o.bad(26, "M /= M (divisor aliases the dividend) differs from M / M"); return; }
+      LD d = labs_((LD)G[cc][r] - (cc == r ? 1 : 0)); if (!(d <= ktol * N * amax) || (R.unimod && d != 0)) { o.res(FT<T>::bits(G[cc][r]), (uint64_t)(cc * N + r)); o.exp(FT<T>::bits((T)(cc == r ? 1 : 0)), (uint64_t)(cc * N + r)); o.bad(27, "M / M is not the identity within the inverse bound"); return; } } }
   // M / v = inverse(M) * v ;  v / M = v * inverse(M)
   { Vec g1 = R.M / v, g2 = v / R.M; LD smax = 0, w1[N], w2[N];
     for (int r = 0; r < N; ++r) { LD s = 0, a = 0; for (int cc = 0; cc < N; ++cc) { LD t = R.inv[cc][r] * (LD)v[cc]; s += t; a += labs_(t); } w1[r] = s; if (a > smax) smax = a; }
